@@ -169,6 +169,17 @@ type NotConditions struct {
 	Exprs []Expression
 }
 
+// rawExprSQL returns the SQL text of a raw expression (Expr or NamedExpr)
+func rawExprSQL(expr Expression) (string, bool) {
+	switch e := expr.(type) {
+	case Expr:
+		return e.SQL, true
+	case NamedExpr:
+		return e.SQL, true
+	}
+	return "", false
+}
+
 func (not NotConditions) Build(builder Builder) {
 	anyNegationBuilder := false
 	for _, c := range not.Exprs {
@@ -192,9 +203,9 @@ func (not NotConditions) Build(builder Builder) {
 				negationBuilder.NegationBuild(builder)
 			} else {
 				builder.WriteString("NOT ")
-				e, wrapInParentheses := c.(Expr)
+				rawSQL, wrapInParentheses := rawExprSQL(c)
 				if wrapInParentheses {
-					sql := strings.ToUpper(e.SQL)
+					sql := strings.ToUpper(rawSQL)
 					if wrapInParentheses = strings.Contains(sql, AndWithSpace) || strings.Contains(sql, OrWithSpace); wrapInParentheses {
 						builder.WriteByte('(')
 					}
@@ -227,9 +238,9 @@ func (not NotConditions) Build(builder Builder) {
 				}
 			}
 
-			e, wrapInParentheses := c.(Expr)
+			rawSQL, wrapInParentheses := rawExprSQL(c)
 			if wrapInParentheses {
-				sql := strings.ToUpper(e.SQL)
+				sql := strings.ToUpper(rawSQL)
 				if wrapInParentheses = strings.Contains(sql, AndWithSpace) || strings.Contains(sql, OrWithSpace); wrapInParentheses {
 					builder.WriteByte('(')
 				}
